@@ -250,6 +250,16 @@ theorem machine_scope (c : Cfg) (s : St) (k : String) (v : Val) (d : Int) :
     | _ => simp only [step] <;> repeat' split
            all_goals simp [modeStart, setOn]
 
+/-- the timer of the correspondence run (`timerDev`, the rules of `mpf/devices/timer.py`): stopped, or paused until it is
+started again, with no resume pending, it keeps its ticks however much time passes; and whatever its configuration, a
+load gives the start value (a timer does not carry ticks over to the player's next ball — its variable does, until the
+mode starts again). -/
+theorem stopped_timer_keeps_ticks (t : TimerCfg) (key : String) (l : Loc) (v : Int) (hr : l.run = false) (hp : l.pause = 0) :
+    (timerDev key t).tick l (.int v) = (l, .int v) ∧ ∀ x, (timerDev key t).load x = .int t.start := by
+  refine ⟨?_, fun _ => rfl⟩
+  show tmTick t l (.int v) = (l, .int v)
+  simp [tmTick, hr, hp]
+
 /-- the hypotheses are satisfiable and the statements bite: two players, a shot (3 states) and an achievement-like
 device whose `load` turns 1 into 2; player 1 advances the shot twice and scores, player 2 advances it once; when
 player 1 is up again the shot shows 2, the other device was transformed by `load`, player 2's dictionary still holds 1 -/
